@@ -9,6 +9,7 @@ struct LuState {
 	Mat cols;                       // pool of sparse-as-dense columns (each of length dim)
 	std::vector<int> basis;         // column of the pool at each basis position
 	int updates_since_factor = 0;
+	int zeros = 0; uint64_t zseed = 0;   // explicitly stored zero entries (the column store of an LP may hold them)
 	// sparse storage handed to ILLfactor (must stay alive while f is in use)
 	std::vector<int> cbeg, clen, cindx; mpq_t *ccoef = 0;
 	~LuState();
@@ -31,7 +32,7 @@ static bool dense_singular(const Mat &B) { std::vector<Q> b(B.size(), Q(0)), x; 
 static int do_factor(LuState &L, int *nsing_out) {
 	// (re)build the sparse column storage for the whole pool
 	int ncols = (int)L.cols.size(); L.cbeg.assign(ncols, 0); L.clen.assign(ncols, 0); L.cindx.clear(); std::vector<Q> vals;
-	for (int c = 0; c < ncols; c++) { L.cbeg[c] = (int)L.cindx.size(); for (int r = 0; r < L.dim; r++) if (L.cols[c][r] != 0) { L.cindx.push_back(r); vals.push_back(L.cols[c][r]); } L.clen[c] = (int)L.cindx.size() - L.cbeg[c]; }
+	for (int c = 0; c < ncols; c++) { L.cbeg[c] = (int)L.cindx.size(); for (int r = 0; r < L.dim; r++) if (L.cols[c][r] != 0 || (L.zeros && Rng::mix(L.zseed + (uint64_t)c * 131 + (uint64_t)r) % (L.zeros == 1 ? 7u : 3u) == 0)) { L.cindx.push_back(r); vals.push_back(L.cols[c][r]); } L.clen[c] = (int)L.cindx.size() - L.cbeg[c]; }
 	if (L.ccoef) shim_mpq_free(L.ccoef); L.ccoef = shim_mpq_alloc((int)vals.size() + 1);
 	for (size_t k = 0; k < vals.size(); k++) mpq_set(L.ccoef[k], vals[k].get_mpq_t());
 	if (L.cindx.empty()) L.cindx.push_back(0);
@@ -49,7 +50,7 @@ void Exec::op_lu(Client &c) {
 	std::string what = op->s("what", "factor"); (void)c;
 	if (what == "factor") {
 		int dim = 1 + modn(op->i("dim", 4), (long)plan.knobi("lu.maxdim", 14)); int fam = modn(op->i("fam", 0), 6); uint64_t s = (uint64_t)op->i("seed", 1) * 7919 + 13;
-		slot.reset(new LuState); LuState &L = *slot; L.dim = dim;
+		slot.reset(new LuState); LuState &L = *slot; L.dim = dim; L.zeros = modn(op->i("zeros", 0), 3); L.zseed = s;
 		L.f = (mpq_factor_work *)calloc(1, sizeof(mpq_factor_work)); shim_factor_initvars(L.f); mpq_ILLfactor_init_factor_work(L.f);
 		// knobs (S8): randomised per run so that refactor requests, space exhaustion and the dense tail all happen
 		if (op->has("etamax")) mpq_ILLfactor_set_factor_iparam(L.f, QS_FACTOR_ETAMAX, (int)std::max(1L, op->i("etamax")));
@@ -88,7 +89,7 @@ void Exec::op_lu(Client &c) {
 	if (!slot || !slot->f) { T("  skip (no factorization)"); return; }
 	LuState &L = *slot; int dim = L.dim;
 	if (!L.factored) { T("  skip (not factored)"); return; }
-	auto to_sv = [&](const std::vector<Q> &v, mpq_svector &sv) { shim_svector_init(&sv); shim_svector_alloc(&sv, dim); sv.nzcnt = 0; for (int r = 0; r < dim; r++) if (v[r] != 0) { sv.indx[sv.nzcnt] = r; mpq_set(sv.coef[sv.nzcnt], v[r].get_mpq_t()); sv.nzcnt++; } };
+	auto to_sv = [&](const std::vector<Q> &v, mpq_svector &sv) { shim_svector_init(&sv); shim_svector_alloc(&sv, dim); sv.nzcnt = 0; for (int r = 0; r < dim; r++) if (v[r] != 0 || (L.zeros && Rng::mix(L.zseed + 977 * (uint64_t)step + (uint64_t)r) % 5 == 0)) { sv.indx[sv.nzcnt] = r; mpq_set(sv.coef[sv.nzcnt], v[r].get_mpq_t()); sv.nzcnt++; } };
 	auto from_sv = [&](mpq_svector &sv, std::vector<Q> &v, std::string &err) { v.assign(dim, Q(0)); for (int k = 0; k < sv.nzcnt; k++) { int ix = sv.indx[k]; if (ix < 0 || ix >= dim) { err = strf("index %d out of range in a solve result", ix); return; } v[ix] += Q(sv.coef[k]); } };
 	uint64_t s = (uint64_t)op->i("seed", 1) * 104729 + 7;
 	if (what == "ftran" || what == "btran") {
